@@ -11,9 +11,13 @@
      open_before evs k  = some Onset of k occurs in evs with no Offset of k after it
      state_after h      = OnsetValidator._onsets (keys) after the history h
      issues_at h1 tp    = issues of validate_temporal_relations for tp after h1 *)
+(* The file pipeline is stated for the code AS IT NOW IS (fix C10-F1:
+   sort_dataframe_by_onsets uses kind='stable'; model parameter fixed = true).
+   The theorems about the unrepaired code (fixed = false, tie order chosen by the
+   platform) are kept at the end as the record of the repaired defect. *)
 From Coq Require Import List NArith Permutation Sorted.
 From HV Require Import Base.Res Base.Str Model.Onset Model.Timeline
-  Proofs.OnsetProofs Proofs.TimelineProofs Proofs.TimelineTotal.
+  Proofs.OnsetProofs Proofs.TimelineProofs Proofs.TimelineTotal Proofs.TimelineRuns.
 Import ListNotations.
 
 (* Invariant over ALL histories: the open-scope set is exactly the set of names
@@ -109,10 +113,9 @@ Theorem C10_tie_order_irrelevant : forall h tp tp',
 Proof. exact tie_order_irrelevant. Qed.
 Print Assumptions C10_tie_order_irrelevant.
 
-(* ... the full statement "the outcome never depends on the order in which rows
-   sharing an effective time are merged" is FALSE of the code: with a re-used name
-   the first marker in processing order wins.  This is where the platform dependent
-   tie order of pandas sort_values becomes observable (finding C10-F1). *)
+(* ... and it does matter when a name is used twice: the first marker in processing
+   order wins.  (This is why the tie order of the sort is observable, finding C10-F1;
+   with the stable sort the processing order is the file order.) *)
 Theorem C10_tie_order_independent_refuted :
   exists tp tp', Permutation tp tp' /\
     state_after [tp] <> state_after [tp'] /\
@@ -126,18 +129,13 @@ Print Assumptions C10_tie_order_independent_refuted.
 Theorem C10_processing_order_is_stable_sort : forall (irows : list (nat * row)),
   let es := split_entries irows in
   let out := stable_sort e_time es in
+  (forall perm, sort_dataframe_by_onsets e_time true perm es = Ok out) /\
   sort_by e_time None es = Ok out /\
   Permutation es out /\
   Sorted (fun a b => (e_time a <= e_time b)%N) out /\
   forall t, filter (fun e => N.eqb (e_time e) t) out = filter (fun e => N.eqb (e_time e) t) es.
 Proof. exact processing_order_is_stable_sort. Qed.
 Print Assumptions C10_processing_order_is_stable_sort.
-
-(* Whatever tie order the platform's sort picks, an accepted order is sorted by effective time. *)
-Theorem C10_any_tie_order_is_sorted : forall perm (es out : list entry),
-  sort_by e_time perm es = Ok out -> Sorted (fun a b => (e_time a <= e_time b)%N) out.
-Proof. exact (sort_by_sorted e_time). Qed.
-Print Assumptions C10_any_tie_order_is_sorted.
 
 (* A Delay group takes effect at onset + delay and keeps the row it came from. *)
 Theorem C10_delayed_entry_time : forall (i : nat) (r : row) (e : entry),
@@ -149,25 +147,22 @@ Print Assumptions C10_delayed_entry_time.
 (* The onset part of file validation never raises, for ALL files (sorted or not,
    any Delay groups, failed rows): every index stored by _indexed_dict_from_onsets
    is a valid position for _filter_by_index_list. *)
-Theorem C10_process_file_never_raises : forall rows : list row,
-  exists out, process_file None None rows = Ok out.
+Theorem C10_process_file_never_raises : forall (rows : list row) perm1 perm2,
+  exists out, process_file true perm1 perm2 rows = Ok out.
 Proof. exact process_file_never_raises. Qed.
 Print Assumptions C10_process_file_never_raises.
 
-(* The whole file pipeline = one time point per effective time, in increasing
-   order, holding every group with that effective time, reported at its first
-   row; BOUNDED: kernel-evaluated for all 290 893 files of the domain
-   (<=2 rows x <=2 groups or 3 rows x <=1 group, onsets {0,1,2}, Delay {-,1,2},
-   groups {Onset A, Offset a, no marker}, failed rows).
-   FULL STATEMENT (for all time-ordered files [rows]):
-     needs_sorting rows = false -> process_file None None rows = Ok (spec_file rows)
-   is not proved beyond the bound; missing: an inductive proof that
-   _indexed_dict_from_onsets/_filter_by_index_list group a sorted list by runs. *)
-Theorem C10_effective_time_bounded : forall rows,
-  In rows (files2 ++ files3) -> needs_sorting rows = false ->
-  process_file None None rows = Ok (spec_file rows).
-Proof. exact effective_time_bounded. Qed.
-Print Assumptions C10_effective_time_bounded.
+(* effective_time, FULL statement, for ALL time-ordered files (induction; replaces the
+   former bounded kernel check): rows sharing an onset time and groups shifted by a
+   Delay tag take effect at their effective time -- the pipeline processes exactly one
+   time point per effective time that occurs, in increasing time order, holding every
+   group with that effective time (rows in file order, then Delay groups in file
+   order), reported at the row of its first line, skipping time points that start with
+   a failed row; the platform's tie orders perm1/perm2 are not consulted any more. *)
+Theorem C10_effective_time : forall (rows : list row) perm1 perm2,
+  needs_sorting rows = false -> process_file true perm1 perm2 rows = Ok (spec_file rows).
+Proof. exact effective_time. Qed.
+Print Assumptions C10_effective_time.
 
 (* Non-vacuity: concrete non-trivial histories / files meeting the hypotheses. *)
 Example C10_nonvacuous_history :
@@ -179,11 +174,33 @@ Proof. exact ex_history_run. Qed.
 
 Example C10_nonvacuous_file :
   needs_sorting ex_rows = false /\
-  process_file None None ex_rows =
+  process_file true None None ex_rows =
     Ok ([], [(0, []); (1, []); (0, [mkIssue OffsetBeforeOnset 0 nA]);
              (2, [mkIssue InsetBeforeOnset 0 nB1; mkIssue SameDefsOneRow 1 nB1; mkIssue OffsetBeforeOnset 2 nA])])
-  /\ process_file None None ex_rows = Ok (spec_file ex_rows).
+  /\ process_file true None None ex_rows = Ok (spec_file ex_rows).
 Proof. exact ex_rows_run. Qed.
 
-Example C10_nonvacuous_domain : lengthN files2 = 74893%N /\ lengthN files3 = 216000%N.
-Proof. exact domain_sizes. Qed.
+(* ------------------------------------------------------------------ *)
+(* RECORD OF THE REPAIRED DEFECT C10-F1 (unrepaired code: fixed = false) *)
+(* ------------------------------------------------------------------ *)
+
+(* Unrepaired sort: whatever tie order the platform picks, an accepted order is sorted by effective time ... *)
+Theorem C10_any_tie_order_is_sorted : forall perm (es out : list entry),
+  sort_by e_time perm es = Ok out -> Sorted (fun a b => (e_time a <= e_time b)%N) out.
+Proof. exact (sort_by_sorted e_time). Qed.
+Print Assumptions C10_any_tie_order_is_sorted.
+
+(* ... it agreed with the specification whenever the platform kept the file order ... *)
+Theorem C10_effective_time_unrepaired_order_preserving : forall rows : list row,
+  needs_sorting rows = false -> process_file false None None rows = Ok (spec_file rows).
+Proof. exact effective_time_order_preserving. Qed.
+Print Assumptions C10_effective_time_unrepaired_order_preserving.
+
+(* ... but the full statement was FALSE of the unrepaired code: a tie order that the
+   platform's sort may return gives another outcome (rows "1.0 (Def/A,Onset)" and
+   "1.0 (Def/A,Offset)" merged in the order 1,0). *)
+Theorem C10_effective_time_unrepaired_refuted :
+  exists rows perm2 out,
+    needs_sorting rows = false /\ process_file false None (Some perm2) rows = Ok out /\ out <> spec_file rows.
+Proof. exact effective_time_unrepaired_refuted. Qed.
+Print Assumptions C10_effective_time_unrepaired_refuted.
